@@ -444,6 +444,12 @@ class Mini:
     def call(self, e: ast.Call) -> Any:
         if e.keywords and isinstance(e.func, ast.Name) and e.func.id in self.externals and all(k.arg for k in e.keywords):
             return self.externals[e.func.id](*[self.expr(a) for a in e.args], **{k.arg: self.expr(k.value) for k in e.keywords})
+        if isinstance(e.func, ast.Name) and e.func.id == "enumerate" and len(e.args) == 1 and len(e.keywords) == 1 and e.keywords[0].arg == "start" \
+                and "enumerate" not in self.env and "enumerate" not in self.helpers and "enumerate" not in self.externals:
+            seq, st0 = self.expr(e.args[0]), self.expr(e.keywords[0].value)
+            if isinstance(seq, (list, tuple)) and isinstance(st0, int) and not isinstance(st0, bool):
+                return [tuple(x) for x in enumerate(seq, start=st0)]
+            raise Unsupported("enumerate over a non-sequence")
         if e.keywords and not (isinstance(e.func, ast.Attribute) and e.func.attr == "format"):
             raise Unsupported("keyword arguments")
         if isinstance(e.func, ast.Attribute):
